@@ -30,6 +30,7 @@ def r03_1(ctx):
     ctx.need("cds::gc::hp::details::basic_smr::inplace_scan")
     ctx.need("cds::gc::dhp::(anon)::retire_data")
     smr.rule_scan_decision(ctx, "R03.1", fs, R)
+    smr.rule_scan_ranges(ctx, "R03.1r", R)
 r03_1.rule_id = "R03.1"
 
 
@@ -75,4 +76,4 @@ r03_5.rule_id = "R03.5"
 
 
 RULES = [r03_1, r03_2, r03_3, r03_4, r03_5]
-FLOORS = {"R03.1": 7, "R03.2": 3, "R03.3": 10, "R03.4": 14, "R03.5": 8}
+FLOORS = {"R03.1r": 8, "R03.1": 7, "R03.2": 3, "R03.3": 10, "R03.4": 14, "R03.5": 8}
